@@ -47,6 +47,9 @@ pub fn init_math(interp: &mut Interpreter) -> Gc<JsObject> {
     interp.register_method(&math_obj, "round", math_round, 1);
     interp.register_method(&math_obj, "trunc", math_trunc, 1);
     interp.register_method(&math_obj, "sign", math_sign, 1);
+    interp.register_method(&math_obj, "fround", math_fround, 1);
+    interp.register_method(&math_obj, "clz32", math_clz32, 1);
+    interp.register_method(&math_obj, "imul", math_imul, 2);
 
     // Min/max
     interp.register_method(&math_obj, "min", math_min, 2);
@@ -156,9 +159,40 @@ pub fn math_sign(
     } else if n < 0.0 {
         -1.0
     } else {
-        0.0
+        n // +0 and -0 keep their sign
     };
     Ok(Guarded::unguarded(JsValue::Number(result)))
+}
+
+pub fn math_fround(
+    interp: &mut Interpreter,
+    _this: JsValue,
+    args: &[JsValue],
+) -> Result<Guarded, JsError> {
+    let n = interp.coerce_to_number(&args.first().cloned().unwrap_or(JsValue::Undefined))?;
+    Ok(Guarded::unguarded(JsValue::Number((n as f32) as f64)))
+}
+
+pub fn math_clz32(
+    interp: &mut Interpreter,
+    _this: JsValue,
+    args: &[JsValue],
+) -> Result<Guarded, JsError> {
+    let n = interp.coerce_to_number(&args.first().cloned().unwrap_or(JsValue::Undefined))?;
+    Ok(Guarded::unguarded(JsValue::Number(
+        crate::value::to_uint32(n).leading_zeros() as f64,
+    )))
+}
+
+pub fn math_imul(
+    interp: &mut Interpreter,
+    _this: JsValue,
+    args: &[JsValue],
+) -> Result<Guarded, JsError> {
+    let a = interp.coerce_to_number(&args.first().cloned().unwrap_or(JsValue::Undefined))?;
+    let b = interp.coerce_to_number(&args.get(1).cloned().unwrap_or(JsValue::Undefined))?;
+    let product = crate::value::to_uint32(a).wrapping_mul(crate::value::to_uint32(b));
+    Ok(Guarded::unguarded(JsValue::Number(product as i32 as f64)))
 }
 
 pub fn math_min(
